@@ -537,6 +537,10 @@ func (e *Exec) strEq(a, b *StrV) *Term {
 		return e.ipTextEq(a.IP, a.Zone, b.IP, b.Zone)
 	case a.Kind == SConc && a.S == "" && b.Kind != SOpaque:
 		return tc.Bool(false)
+	case b.Kind == SOpaque || a.Kind == SOpaque:
+		// text of unknown content (formatting of symbolic values): equal only to itself for
+		// certain; otherwise it may differ (candidates are confirmed natively)
+		return tc.Bool(a.Kind == SOpaque && b.Kind == SOpaque && a.ID == b.ID)
 	case a.Kind == SConc && (b.Kind == SHostPort || b.Kind == SIPText):
 		// compare against the parse of the concrete text
 		cs := e.parseConcreteAddrText(a.S, b.Kind == SHostPort)
